@@ -71,7 +71,8 @@ type Stream struct {
 	cutHit       bool
 	serverClosed bool
 	goid         uint64
-	failRun      int // run in which the host's I/O first failed (-1: never)
+	done         chan struct{} // closed when the server closed the stream
+	failRun      int           // run in which the host's I/O first failed (-1: never)
 	failBytes    int // bytes of that run moved before the failure
 }
 
@@ -102,6 +103,10 @@ func (s *Stream) Runs() []Run {
 	}
 	return out
 }
+
+// Done is closed once the server has closed the stream, i.e. once the handler
+// and its deferred unlocks have returned.
+func (s *Stream) Done() <-chan struct{} { return s.done }
 
 // CutHit reports whether the stream's cut plan fired.
 func (s *Stream) CutHit() bool {
@@ -283,6 +288,21 @@ func (c *Client) CutNext(cut Cut) {
 	c.mu.Unlock()
 }
 
+// WaitLast blocks until the server has closed the stream this client dialed
+// last (per-client handler barrier; other clients keep running).
+func (c *Client) WaitLast(watchdog time.Duration) error {
+	st := c.m.Stream(c.LastStream())
+	if st == nil {
+		return nil
+	}
+	select {
+	case <-st.Done():
+		return nil
+	case <-time.After(watchdog):
+		return ErrQuiesceTimeout
+	}
+}
+
 // LastStream returns the id of the stream dialed last by this client.
 func (c *Client) LastStream() uint64 {
 	c.mu.Lock()
@@ -319,7 +339,7 @@ func (c *Client) DialStream(ctx context.Context) (net.Conn, error) {
 	cl, sv := net.Pipe()
 	id := m.nextID.Add(1)
 	m.total.Add(1)
-	st := &Stream{ID: id, failRun: -1}
+	st := &Stream{ID: id, failRun: -1, done: make(chan struct{})}
 	c.mu.Lock()
 	st.cut = c.cut
 	c.cut = nil
@@ -557,6 +577,7 @@ func (t *tapConn) Close() error {
 	s.mu.Unlock()
 	err := t.Conn.Close()
 	if first {
+		close(s.done)
 		if g != 0 {
 			t.m.goStreams.CompareAndDelete(g, s.ID)
 		}
